@@ -88,6 +88,10 @@ Qed.
 (* prefix compaction and @base-relative ids *)
 Lemma surface_compact ctx base p l ns : assoc p ctx = Some ns -> expand ctx base (ICompact p l) = expand ctx base (IAbs (ns ++ l)%string).
 Proof. intros H. simpl. now rewrite H. Qed.
+(* @vocab compaction: a bare term no context entry defines stands for the vocabulary IRI followed by the term *)
+Lemma surface_vocab ctx base l v : assoc l ctx = None -> assoc "@vocab"%string ctx = Some v ->
+  expand ctx base (IVocab l) = expand ctx base (IAbs (v ++ l)%string).
+Proof. intros H1 H2. simpl. now rewrite H1, H2. Qed.
 Lemma surface_relative ctx base s : expand ctx base (IRel s) = expand ctx base (IAbs (base ++ s)%string).
 Proof. reflexivity. Qed.
 (* a node embedded in its parent versus listed flat and referenced *)
